@@ -555,6 +555,15 @@ def eval_count(case):
 
 
 # ------------------------------------------------------------------------------------------------
+_LONG = {"a": "alpha", "b": "beta", "c": "gamma", "d": "delta"}
+
+
+def _long_names(spec):
+    def ren(g):
+        return [_LONG[x] for x in g] if isinstance(g, list) else _LONG[g]
+    return {**spec, "items": [[_LONG[k], v] for k, v in spec["items"]], "dims": None if spec.get("dims") is None else [ren(g) for g in spec["dims"]]}
+
+
 def evaluate(case):
     op = case["op"]
     if op == "single":
@@ -765,6 +774,8 @@ def run_unit(unit):  # noqa: C901, PLR0912, PLR0915
                     for r in range(1, len(ck) + 1):
                         for ks in itertools.combinations(ck, r):
                             do({"op": "filtered", "s": spec, "keys": list(ks)})
+                            if deriv is None:  # the same with names of more than one character (a bare-string dims group is a NAME, not a sequence)
+                                do({"op": "filtered", "s": _long_names(spec), "keys": [_LONG[k] for k in ks]})
         acc.sample({"op": "filtered", "s": base, "keys": [base["items"][0][0]]})
     elif kind == "prod2":
         _, which, c, n = unit
@@ -823,6 +834,9 @@ def run_unit(unit):  # noqa: C901, PLR0912, PLR0915
                     continue
                 for as_list in (False, True):
                     do({"op": "count", "pipeline": name, "s": base, "as_list": as_list, "use_pandas": use_pandas})
+                # the same sweep with one more swept key that is no argument of the pipeline: every multiplicity doubles
+                wide = {"items": [*items, ["zz", [0, 1]]], "dims": None if dims is None else [*dims, "zz"]}
+                do({"op": "count", "pipeline": name, "s": wide, "as_list": False, "use_pandas": use_pandas})
         acc.sample({"op": "count", "pipeline": name, "s": base, "as_list": False, "use_pandas": use_pandas})
     else:
         raise ValueError(unit)
